@@ -14,20 +14,25 @@ def trim_prefix(b):
     return b
 
 
-def cli_identity(res, raws, nd_counter):
+def cli_identity(res, raws, nd_counter, chunk_size=None, data=None):
     """list level: `editor` with {} and `convert -m 0`-style paths keep every RPU or fail"""
     tmp = os.path.join(C.TMP, "c01")
     os.makedirs(tmp, exist_ok=True)
     inp = os.path.join(tmp, "in.bin")
     with open(inp, "wb") as f:
-        for raw in raws:
+        if data is not None:
+            f.write(data)
+        for raw in ([] if data is not None else raws):
             f.write(b"\x00\x00\x00\x01" + R.escape(raw))
     cfg = os.path.join(tmp, "empty.json")
     open(cfg, "w").write("{}")
     out = os.path.join(tmp, "out.bin")
     if os.path.exists(out):
         os.remove(out)
-    p = subprocess.run([C.DOVI, "editor", "-i", inp, "-j", cfg, "-o", out], stdout=subprocess.PIPE, stderr=subprocess.STDOUT, timeout=300)
+    env = dict(os.environ)
+    if chunk_size:
+        env["DOVI_TOOL_VERIF_CHUNK_SIZE"] = str(chunk_size)
+    p = subprocess.run([C.DOVI, "editor", "-i", inp, "-j", cfg, "-o", out], stdout=subprocess.PIPE, stderr=subprocess.STDOUT, timeout=300, env=env)
     if p.returncode not in (0, 1):
         res.violation("editor {} crashed with status %d" % p.returncode, {"cmd": "editor {}", "input_rpus": [r.hex() for r in raws[:50]], "status": p.returncode})
         return 0
@@ -115,6 +120,12 @@ def run(res):
     if parse_only:
         mixed = okraws[:20] + parse_only[:3] + okraws[20:30]
         ncli += cli_identity(res, mixed, nd)
+    # files spanning several read chunks, incl. one whose size is an exact multiple of the chunk size
+    from . import c14
+    pool = [x.rstrip(b"\x00") for x in okraws[:80]]
+    for cs, exact in ((10000, True), (10000, False), (12500, True)):
+        data, lst = c14.build_file(r, pool, int(cs * 2.4), cs, [r.randrange(-4, 5), r.randrange(-4, 5)], exact_multiple=exact, tz_prob=0.0)
+        ncli += cli_identity(res, lst, nd, chunk_size=cs, data=data)
     sigs = set(RC.signature(meta, t) for t, raw, meta in trees)
     res.coverage.update({
         "evaluations": len(lines) + len(nl) + len(al) + ncli,
